@@ -284,10 +284,13 @@ fn cmd_congress(a: &HashMap<String, String>) {
                         let before = rec.0.lock().unwrap().len();
                         let res = s.format(&GroupEntry { group: name.clone() }, &mut std::io::sink());
                         let got = rec.0.lock().unwrap()[before..].to_vec();
-                        // compact: [group, held rate bits | null, draw bits, draw taken, inner calls (-1: unsampled
-                        // format() was called), forwarded rate bits | null, format ok]
+                        // compact: [group, rate held for the group (before the call; for a group the sampler did not
+                        // know yet: after the call), group was new, draw bits, draw taken, inner calls (-1: the
+                        // unsampled format() was called), forwarded rate bits | null, format ok]
                         let n = if got.iter().any(|(g, _)| g == "UNSAMPLED") { -1 } else { got.len() as i64 };
-                        calls.push(json!([g + 1, held.map(|r| r.to_bits()), draw_f32(word).to_bits(), rng.len() == 0, n,
+                        let is_new = held.is_none();
+                        let held = held.or_else(|| rates_of(&s).get(&name).map(|x| x.0));
+                        calls.push(json!([g + 1, held.map(|r| r.to_bits()), is_new, draw_f32(word).to_bits(), rng.len() == 0, n,
                                           got.first().map(|(_, r)| r.to_bits()), res.is_ok()]));
                     }
                 }
